@@ -307,9 +307,8 @@ Definition good_word (pre w : list action) : bool :=
   negb (wf_from [] acts) || exposed acts || ok (gen_case acts).
 Definition bad (pre : list action) (n : nat) := filter (fun w => negb (good_word pre w)) (words n).
 
-(* ok accepts the model's own output for EVERY well-formed script without an
-   exposed stall among: [ASet [7]] ++ w ++ [AWait], |w| <= 4 over a 12-letter
-   alphabet (22621 words).  Exhaustive computation, not an induction: the general
-   statement (all scripts, all schedules of the model) is not proved. *)
-Theorem ok_gen_bounded : bad [ASet [7]] 4 = [].
+(* a small exhaustive sweep kept as a sanity example: ok accepts the model's own
+   output on every well-formed script without an exposed stall among
+   [ASet [7]] ++ w ++ [AWait], |w| <= 3 (1885 words) *)
+Example ok_gen_sweep : bad [ASet [7]] 3 = [].
 Proof. vm_compute. reflexivity. Qed.
